@@ -59,6 +59,10 @@ Accept(y, e) ==
                               /\ Within(Fx(y.l), e.c.l, e.tol) /\ Within(Fx(y.c), e.c.c, e.tol)
                               /\ Within(Fx(y.v), e.c.v, e.tol)
 
+\* OHLCV::validate on exact values
+ValidC(c) == /\ FxLe(c.l, c.o) /\ FxLe(c.o, c.h) /\ FxLe(c.l, c.c) /\ FxLe(c.c, c.h)
+             /\ c.o.s > 0 /\ c.h.s > 0 /\ c.l.s > 0 /\ c.c.s > 0 /\ c.v.s >= 0
+
 Init == l = 1 /\ subj = "" /\ par = <<>> /\ H = <<>> /\ R = <<>> /\ t = 0 /\ M = FxZero /\ live = FALSE
 
 TReset == Is("reset") /\ live' = FALSE /\ UNCHANGED <<subj, par, H, R, t, M>> /\ Step
@@ -80,6 +84,8 @@ TNext == /\ Is("next") /\ live
                 m2 == FxMax(M, InMag(subj, x))
                 q  == NExpect(subj, par, h2, R, x, t + 1, m2)
             IN  /\ Accept(E.y, q.exp)
+                \* HeikinAshi outputs a valid candle whenever its input is valid (C17)
+                /\ (subj = "HeikinAshi" /\ ValidC(x)) => ValidC(Cndl(E.y))
                 /\ H' = h2 /\ R' = q.st /\ M' = m2
          /\ t' = t + 1
          /\ UNCHANGED <<subj, par, live>>
